@@ -77,6 +77,11 @@ def main():
                     caught.append("%s:MISSED(rc=%d)" % (prop, rc))
                     failed += 1
             print("%-55s %s%s" % (name, " ".join(caught), suite), flush=True)
+            if "--record" in sys.argv and name.startswith("seeded/"):
+                mp = os.path.join(os.path.dirname(patch), "meta.json")
+                meta = json.load(open(mp))
+                meta["detection"] = {"quick_tier": caught, "all_caught": not any("MISSED" in c or "PROBLEM" in c for c in caught)}
+                json.dump(meta, open(mp, "w"), indent=1)
         finally:
             shutil.rmtree(d, ignore_errors=True)
     return 1 if failed else 0
